@@ -55,6 +55,7 @@ fn main() {
     let code = match args.first().map(|s| s.as_str()) {
         Some("--worker") => run_worker(&args[1], &args[2]),
         Some("--c13-helper") => checks::c13::helper_main(),
+        Some("--c01-binomial-helper") => checks::c01::binomial_helper_main(),
         Some("replay") => run_replay(&args[1]),
         Some(id) if args.len() >= 2 => supervise(id, &args[1]),
         _ => {
@@ -239,7 +240,22 @@ fn supervise(id: &str, tier: &str) -> i32 {
     for r in reported {
         if let (Some(rp), true) = (d.replay, r.replay.get("ops").is_some() || r.replay.get("system").is_some() || r.replay.get("pair_index").is_some() || r.replay.get("config_index").is_some()) {
             vharness::explore::install_quiet_panic_hook();
-            match rp(&r.replay) {
+            // the replay runs the subject again; if the subject panics outside the replay's own guards the
+            // same way twice, the report is confirmed (the history deterministically crashes it)
+            let guarded = |r: &Reported| -> Result<Option<String>, String> {
+                let once = || std::panic::catch_unwind(std::panic::AssertUnwindSafe(|| rp(&r.replay)));
+                match once() {
+                    Ok(x) => x,
+                    Err(_) => {
+                        let m1 = vharness::explore::last_panic();
+                        match once() {
+                            Err(_) if vharness::explore::last_panic() == m1 => Ok(Some(format!("replay panicked twice: {m1}"))),
+                            _ => Err(format!("replay panicked once: {m1}")),
+                        }
+                    }
+                }
+            };
+            match guarded(&r) {
                 Ok(Some(_)) => confirmed.push(r),
                 Ok(None) => {
                     eprintln!("machinery: a reported violation did not reproduce on replay (dropped): {}", r.summary.lines().next().unwrap_or(""));
